@@ -46,6 +46,21 @@ TileLawAt(Sem(_), inputs, S, k) ==
    /\ a.must = "value" /\ b.must = "value" /\ Len(a.value) = Len(b.value)
    /\ \A j \in 1..Len(a.value) : Len(a.value[j].shape) >= 1 /\ b.value[j] = Tile0(a.value[j], k)
 TileLaw(Sem(_), inputs, S) == TileLawAt(Sem, inputs, S, 2) /\ TileLawAt(Sem, inputs, S, 3)
+\* the same law along other axes (recurrent operators keep the batch on axis 1 of X and of the states, on axis 2 of Y):
+\* iax : input position -> 0-based axis (positions outside its domain are left as they are), oax : sequence of 0-based result axes
+TileAx(t, a, k) ==
+   LET outer == ProdSeq(SubSeq(t.shape, 1, a), 1) block == ProdSeq(SubSeq(t.shape, a + 1, Len(t.shape)), 1) IN
+   [t EXCEPT !.shape = [t.shape EXCEPT ![a + 1] = @ * k],
+             !.data = [n \in 1..(outer * block * k) |-> LET o == (n - 1) \div (block * k) r == ((n - 1) % (block * k)) % block IN t.data[o * block + r + 1]]]
+TileLawAxAt(Sem(_), inputs, iax, oax, k) ==
+   LET a == Sem(inputs) b == Sem([i \in 1..Len(inputs) |-> IF i \in DOMAIN iax THEN TileAx(inputs[i], iax[i], k) ELSE inputs[i]]) IN
+   /\ \A i \in DOMAIN iax : Len(inputs[i].shape) > iax[i]
+   /\ a.must = "value" /\ b.must = "value" /\ Len(a.value) = Len(b.value) /\ Len(oax) >= Len(a.value)
+   /\ \A j \in 1..Len(a.value) : Len(a.value[j].shape) > oax[j] /\ b.value[j] = TileAx(a.value[j], oax[j], k)
+TileLawAx(Sem(_), inputs, iax, oax) == TileLawAxAt(Sem, inputs, iax, oax, 2) /\ TileLawAxAt(Sem, inputs, iax, oax, 3)
+TileFieldAx(iax, oax) ==
+   LET S == DOMAIN iax f == CHOOSE f \in [1..Cardinality(S) -> S] : \A a, b \in 1..Cardinality(S) : a < b => f[a] < f[b] IN
+   [pos |-> [i \in 1..Cardinality(S) |-> f[i] - 1], axes |-> [i \in 1..Cardinality(S) |-> iax[f[i]]], oaxes |-> oax]
 \* the field a flagged case carries: 0-based positions of the inputs that are repeated
 TileField(S) == [pos |-> [i \in 1..Cardinality(S) |-> (CHOOSE f \in [1..Cardinality(S) -> S] : \A a, b \in 1..Cardinality(S) : a < b => f[a] < f[b])[i] - 1]]
 
